@@ -517,3 +517,5 @@ def check(run, prog):
         run.ob("R-11.4", f"{fn.key}::match-at-position", not why,
                "a numeric pattern is not applied with match() at the current position: " + "; ".join(why[:3]),
                uses[0].call if uses else fn.node, patterns=sorted({u.name for u in uses}))
+    from .c11_termination import rule_literal_termination
+    rule_literal_termination(run, prog)      # R-11.7
